@@ -56,6 +56,8 @@ type Contract struct {
 	Uses     []string
 	RepInvs  []*Clause
 	FrozenClock bool
+	Ghosts      []string
+	Afters      []*AfterHook
 	Hides       []string // pure spec functions treated as uninterpreted (heap-parametric) within this function's VC
 	ReadsClock  bool
 }
@@ -66,6 +68,13 @@ type FindingSplit struct {
 	Label string
 	Disc  *Clause
 	ID    string
+}
+
+// AfterHook: `after <pattern> set ghost = expr` — ghost state update right after a matching call returned.
+type AfterHook struct {
+	Pattern string
+	Ghost   string
+	Expr    *Clause
 }
 
 type letDef struct {
@@ -116,7 +125,7 @@ type Contracts struct {
 	overlay map[string][]byte
 }
 
-var kwRe = regexp.MustCompile(`^(func|prop|requires|ensures|modifies|loop|site|trusted|inline|let|pure|axiom|lemma|invariant|nopanic|maypanic|finding|ispure|witness|uses|repinv|frozenclock|readsclock|rec|hides)\b`)
+var kwRe = regexp.MustCompile(`^(func|prop|requires|ensures|modifies|loop|site|trusted|inline|let|pure|axiom|lemma|invariant|nopanic|maypanic|finding|ispure|witness|uses|repinv|frozenclock|readsclock|rec|hides|ghost|after)\b`)
 
 func LoadContracts(p *Program) (*Contracts, error) {
 	cs := &Contracts{Fns: map[string]*Contract{}, Pures: map[string]*PureFn{}, RepInvs: map[string]*RepInv{}}
@@ -314,6 +323,19 @@ func (cs *Contracts) parseFile(path string, pkg *types.Package) error {
 				return err
 			}
 			cur.RepInvs = append(cur.RepInvs, c)
+		case "ghost":
+			cur.Ghosts = append(cur.Ghosts, strings.FieldsFunc(rest, func(r rune) bool { return r == ',' || r == ' ' })...)
+		case "after":
+			j := strings.Index(rest, " set ")
+			k := strings.Index(rest, "=")
+			if j < 0 || k < j {
+				return fail(rc, "after <pattern> set ghost = expr")
+			}
+			c, err := mkClause(rc, rest[k+1:])
+			if err != nil {
+				return err
+			}
+			cur.Afters = append(cur.Afters, &AfterHook{Pattern: strings.TrimSpace(rest[:j]), Ghost: strings.TrimSpace(rest[j+5 : k]), Expr: c})
 		case "hides":
 			for _, x := range strings.FieldsFunc(rest, func(r rune) bool { return r == ',' || r == ' ' }) {
 				cur.Hides = append(cur.Hides, x)
